@@ -335,6 +335,64 @@ def run_chunks(res, prop, execs, variant, name, chunk=60):
 HIST_KINDS = ["T", "M", "NM", "Cnt", "Ref", "NRef", "EP", "EPV", "FS", "U8", "Mod", "PeSec", "Undef"]
 
 
+def replay_scan_model(res, prop, tier, cfgname, nbeh, seed):
+    """spec -> implementation: TLC enumerates every complete behaviour of ScanMC in the scope of spec/<cfgname> (ScanGen.tla: the
+    environment's choices are logged in a ghost variable, so every distinct history is a distinct state) and prints each as JSON;
+    a sample of them (all in the thorough tier when there are fewer than the budget) is turned into driver scripts - the rule set
+    and the files are the model's own, realised by gen/scangen.py - run on the library and validated against ScanTrace.tla"""
+    wd = yv.workdir(prop)
+    t = yv.tlc("ScanGen", cfgname, wd, coverage=False, timeout=2400, xmx="16g")
+    if t["broken"] and not t["violated"]:
+        raise yv.Broken("ScanGen did not complete: %s" % t["out"][-1500:])
+    defs, behs = None, []
+    for ln in t["out"].split("\n"):
+        if not ln.startswith('"'): continue
+        try: v = json.loads(json.loads(ln))
+        except Exception: continue
+        if isinstance(v, dict) and v.get("model") == "definitions": defs = v
+        elif isinstance(v, list): behs.append(v)
+    if defs is None or not behs:
+        raise yv.Broken("ScanGen printed no behaviours")
+    res.cov["parts"]["model_behaviours_" + cfgname] = len(behs)
+    r = yv.rng(seed, "scangen" + cfgname)
+    if len(behs) > nbeh:
+        behs = r.sample(behs, nbeh)
+    rules = [rule(q["ns"], q["global"], q["private"], q["mk"], sg.C(q["cond"]["k"], q["cond"]["a"], q["cond"]["b"])) for q in defs["rs"]["rules"]]
+    files = {}
+    for f in defs["files"]:
+        spec = []
+        for bi, b in enumerate(f["blocks"]):
+            bs = {"mk": list(b["mk"]), "filler": 0 if b["size"] == 0 else 4, "gap": 1}
+            if b["ep"] >= 0: bs["exe"] = "pe" if f["pesec"] else "elf"
+            if b.get("bomb"): bs["bomb"] = True
+            spec.append(bs)
+        files[f["id"]] = sg.make_file(f["id"], "x", spec, f["u8"], 2)
+    execs = []
+    for beh in behs:
+        scans, cur = [], None
+        for ev in beh:
+            if ev["e"] == "Scan":
+                if cur: scans.append(cur)
+                fl = [x for x in ("match", "nomatch") if ev[x]]
+                cur = {"f": ev["file"], "flags": fl, "timeout": ev["timeout"], "mode": ev["mode"], "it": 0, "cb": 0, "nr": [], "plan": [], "resumes": 0}
+            elif cur is None: continue
+            elif ev["e"] == "It": cur["it"] += 1
+            elif ev["e"] == "NR": cur["nr"].append(cur["it"]); cur["it"] += 1
+            elif ev["e"] == "Resume": cur["resumes"] += 1
+            elif ev["e"] == "Cb":
+                if ev["reply"] != "continue": cur["plan"].append((cur["cb"], ev["reply"][0]))
+                cur["cb"] += 1
+        if cur: scans.append(cur)
+        xs = []
+        for c in scans:
+            f, data, sizes = files[c["f"]]
+            mode = c["mode"] if (c["mode"] == "blocks" or len(sizes) > 1) else "mem"
+            xs.append(scan(f, data, sizes, flags=c["flags"], timeout=c["timeout"], mode=mode, nr=c["nr"], plan=c["plan"], maxcalls=c["resumes"] + 1))
+        execs.append({"rules": rules, "scans": xs, "kind": "model-behaviour"})
+    run_chunks(res, prop, execs, "asan", "scangen_" + cfgname.split(".")[0])
+    res.cov["parts"]["model_behaviours_replayed_" + cfgname] = len(execs)
+
+
 def proc_histories(res, tier, wd):
     from checks import func
     """scans of a live process (content not modelled) ending in every way, each followed by a buffer scan on the same scanner:
@@ -454,6 +512,7 @@ def c10(res, tier, seed):
             execs.append({"rules": rules, "scans": scans, "kind": "c10-history"})
         run_chunks(res, "C10", execs, variant, "c10_" + variant)
     proc_histories(res, tier, yv.workdir("C10"))
+    replay_scan_model(res, "C10", tier, "ScanGen.cfg", 200 if tier == "quick" else 20000, seed)
     res.cov["rule"] = ("histories of 2-12 scans on one scanner over PE/ELF/text/empty files x outcomes (ok, abort/error at message k, "
                        "1 ns timeout, not-ready resumed / abandoned, match cap hit in the scaled build, regexp fiber pool exhausted by a bomb block "
                        "with the other strings matched through the regexp engine, continue/stop); every call's "
